@@ -319,14 +319,18 @@ Proof.
   destruct l; try exact G.
   - (* ECast *)
     destruct m; try exact G. destruct op; try exact G. destruct r; try exact G.
-    destruct m; try exact G. clear G. cbn [solve_compare].
-    apply out_rel_bind_eq with (R := opt_veq); [apply H|].
-    intros a b Hab. destruct a as [x|], b as [x'|]; cbn in Hab; try contradiction; [|reflexivity].
-    rewrite (value_to_string_rel o _ _ Hab).
-    destruct (value_to_string o x'); [|reflexivity].
-    apply out_rel_bind_eq with (R := opt_veq); [apply H|].
-    intros a b Hab2. destruct a as [y|], b as [y'|]; cbn in Hab2; try contradiction; [|reflexivity].
-    rewrite (value_to_string_rel o _ _ Hab2). reflexivity.
+    + destruct m; try exact G. clear G. cbn [solve_compare].
+      apply out_rel_bind_eq with (R := opt_veq); [apply H|].
+      intros a b Hab. destruct a as [x|], b as [x'|]; cbn in Hab; try contradiction; [|reflexivity].
+      rewrite (value_to_string_rel o _ _ Hab).
+      destruct (value_to_string o x'); [|reflexivity].
+      apply out_rel_bind_eq with (R := opt_veq); [apply H|].
+      intros a b Hab2. destruct a as [y|], b as [y'|]; cbn in Hab2; try contradiction; [|reflexivity].
+      rewrite (value_to_string_rel o _ _ Hab2). reflexivity.
+    + (* str(f) == null, fix D27 *)
+      clear G. cbn [solve_compare].
+      apply out_rel_bind_eq with (R := opt_veq); [apply H|].
+      intros a b Hab. destruct a as [x|], b as [x'|]; cbn in Hab; try contradiction; reflexivity.
   - (* EField *)
     destruct op; try exact G. destruct r; try exact G; clear G; cbn [solve_compare].
     + apply out_rel_bind_eq with (R := opt_veq); [apply H|].
